@@ -22,6 +22,8 @@ pub struct Profile {
     /// Probability that a grouped query is generated at all.
     pub p_grouped: f64,
     pub p_outer: f64,
+    /// Every table with every pool column (Sim-A's fixed-shape catalogue for its query corpus).
+    pub full_catalogue: bool,
 }
 
 impl Profile {
@@ -37,10 +39,12 @@ impl Profile {
             p_row_privacy: 0.15,
             p_grouped: 0.7,
             p_outer: 0.1,
+            full_catalogue: false,
         };
         match prop {
             "C09" => Profile { public_keys_only: true, benign_data: true, p_distinct: 0.12, p_row_privacy: 0.15, p_grouped: 0.65, ..base },
             "C04" => Profile { need_private_key: true, p_grouped: 1.0, p_outer: 0.0, p_distinct: 0.05, ..base },
+            "C16" => Profile { full_catalogue: true, p_public_table: 1.0, p_synthetic: 0.3, ..base },
             "C02" => Profile { p_plain: 0.25, p_synthetic: 0.4, p_public_table: 0.5, p_outer: 0.2, ..base },
             _ => base,
         }
@@ -85,10 +89,10 @@ fn items_pool() -> Vec<ColPool> {
     ]
 }
 
-fn pick_cols(rng: &mut Rng, pool: Vec<ColPool>, benign: bool) -> Vec<ColSpec> {
+fn pick_cols(rng: &mut Rng, pool: Vec<ColPool>, benign: bool, all: bool) -> Vec<ColSpec> {
     let mut v = vec![];
     for p in pool {
-        if rng.chance(0.8) {
+        if rng.chance(0.8) || all {
             let ty = p.variants[rng.usize(p.variants.len())].clone();
             let optional = p.can_be_optional && rng.chance(if benign { 0.35 } else { 0.4 });
             v.push(ColSpec { name: p.name.to_string(), ty, optional, unique: false });
@@ -168,8 +172,8 @@ pub fn generate(seed: u64, run: u64, prop: &str) -> Generated {
 
     // ---------------- catalogue ----------------
     let mut rc = Rng::stream(seed, run, "catalogue");
-    let depth = 1 + rc.weighted(&[3, 5, 3]); // 1..3 protected tables on the chain
-    let direct_orders = depth >= 2 && rc.chance(0.12); // orders carries its own unit column, no users join
+    let depth = if profile.full_catalogue { 3 } else { 1 + rc.weighted(&[3, 5, 3]) }; // 1..3 protected tables on the chain
+    let direct_orders = !profile.full_catalogue && depth >= 2 && rc.chance(0.12); // orders carries its own unit column, no users join
     let id_hi = *rc.pick(&[100i64, 1000, 50]);
     let users_unique = rc.chance(0.6);
     let mut users = TableSpec {
@@ -182,7 +186,7 @@ pub fn generate(seed: u64, run: u64, prop: &str) -> Generated {
     if with_name_unit {
         users.cols.push(ColSpec { name: "name".into(), ty: ColType::Text, optional: false, unique: rc.chance(0.5) });
     }
-    users.cols.extend(pick_cols(&mut rc, users_pool(), profile.benign_data));
+    users.cols.extend(pick_cols(&mut rc, users_pool(), profile.benign_data, profile.full_catalogue));
     let with_weight = rc.chance(0.08);
     if with_weight {
         users.cols.push(ColSpec { name: "w".into(), ty: ColType::FloatRange { lo: 0.0, hi: 2.0 }, optional: false, unique: false });
@@ -196,14 +200,14 @@ pub fn generate(seed: u64, run: u64, prop: &str) -> Generated {
         size: 0,
         rows: vec![],
     };
-    orders.cols.extend(pick_cols(&mut rc, orders_pool(), profile.benign_data));
+    orders.cols.extend(pick_cols(&mut rc, orders_pool(), profile.benign_data, profile.full_catalogue));
     let mut items = TableSpec {
         name: "items".into(),
         cols: vec![ColSpec { name: "order_id".into(), ty: ColType::IntRange { lo: 0, hi: 100000 }, optional: false, unique: false }],
         size: 0,
         rows: vec![],
     };
-    items.cols.extend(pick_cols(&mut rc, items_pool(), profile.benign_data));
+    items.cols.extend(pick_cols(&mut rc, items_pool(), profile.benign_data, profile.full_catalogue));
     let with_public = rc.chance(profile.p_public_table);
     let regions = TableSpec {
         name: "regions".into(),
